@@ -21,10 +21,26 @@ F(n, d) == [n |-> n, d |-> d]     \* a field: name and the sequence of its class
 (***************************************************************************************************)
 (* Request classes sent to an accepted object (what "any request" is instantiated with).          *)
 (***************************************************************************************************)
+\* Request paths are DERIVED FROM THE PATHS THE GRAMMAR CONFIGURES (HTTPServer path "/a", pathPrefix "/api",
+\* pathRegexp "^/(a|api)" / "^/api/(.*)$"; Mock path "/a", pathPrefix "/api"; RateLimiter exact "/a", regex
+\* "^/(a|api)"; RequestAdaptor trimPrefix "/api"; HeaderLookup pathRegExp "^/api"): next to the configured path
+\* itself an object must survive every near miss of it - one trailing slash, extra segments, another case, a
+\* percent-encoded spelling, the prefix without a segment boundary (the matching and the rewriting / trimming
+\* sites of a kind must agree on all of them).
+PathAnchors  == {"a", "api"}                                      \* the configured literals /a and /api
+PathVariants == {"bare", "slash", "seg", "case", "enc", "nosep"}   \* /a  /a/  /a/x/y  /A  /%61  /ax   (same for /api)
+PathReqs     == {a \o "_" \o v : a \in PathAnchors, v \in PathVariants}
+\* Requests that carry what the Validator's signature section verifies: a header signature and a presigned
+\* query made with access key k / secret s, a header signature made with key k and the EMPTY secret, and a
+\* syntactically complete signature header whose parts are garbage.
+SigReqs      == {"signed", "presigned", "signed0", "badsig"}
 HttpReqs   == {"plain", "body", "basic", "bearer", "stream", "resp", "gz", "preflight", "jsonarr", "respstream"}
-ServerReqs == {"plain", "body", "hdr", "big", "acme", "host"}       \* real HTTP requests to a started HTTPServer
+                 \cup PathReqs \cup SigReqs
+ServerReqs == {"plain", "body", "hdr", "big", "acme", "host"} \cup PathReqs   \* real HTTP requests to a started HTTPServer
 MqttReqs   == {"connect", "pubsub"}                                  \* MQTT sessions against a started MQTTProxy
-PolicyReqs == {"ok", "fail", "burst", "cancelled"}                   \* handler outcomes under a resilience wrapper
+\* handler outcomes under a resilience wrapper: single calls, a failure burst that opens a circuit and probes it
+\* half open, a recovery (wait, successes until the circuit closes, failures on the fresh window), slow handlers
+PolicyReqs == {"ok", "fail", "burst", "cancelled", "recover", "slow"}
 AllReqs    == HttpReqs \cup ServerReqs \cup MqttReqs \cup PolicyReqs
 
 (***************************************************************************************************)
@@ -71,7 +87,8 @@ Fields(k) ==
     [] k = "Validator" ->
        << F("headers",   <<"-", "values", "regexp", "emptyval", "null", "badre", "emptyobj">>),
           F("jwt",       <<"-", "HS256", "HS512", "cookie", "noSecret", "noAlg", "badAlg", "oddSecret", "emptyobj">>),
-          F("sig",       <<"-", "keys", "emptyobj", "emptyKeys", "idOnly", "ttl", "badTTL", "literalPartial", "literalFull", "hoist">>),
+          F("sig",       <<"-", "keys", "emptyobj", "emptyKeys", "idOnly", "ttl", "badTTL", "literalPartial", "literalFull", "hoist",
+                           "emptySecret", "emptyId", "nullSecret", "mixedEmpty", "idNoSecret">>),
           F("oauth2",    <<"-", "jwt", "jwtNoSecret", "emptyobj", "introspectLive", "introspectBasic", "introspectDead",
                            "introspectBadURL", "introspectNoEnd", "both">>),
           F("basicAuth", <<"-", "fileOk", "fileMissing", "emptyobj", "etcd", "etcdPrefix", "badMode">>) >>
@@ -175,7 +192,7 @@ Fields(k) ==
           F("host",              <<"-", "exact", "regexp", "badregexp", "both">>),
           F("ruleIPFilter",      <<"-", "allowLocal", "blockLocal", "v4mapped">>),
           F("path",              <<"prefix", "exact", "regexp", "badregexp", "noSlash", "any", "rewritePrefix", "rewriteExact",
-                                   "rewriteRegexp", "rewriteMixed", "rewriteNoPath">>),
+                                   "rewriteRegexp", "rewriteMixed", "rewriteNoPath", "exactSlash", "rewriteExactSlash">>),
           F("backend",           <<"pl", "unknown", "absent", "empty">>),
           F("headers",           <<"-", "values", "regexp", "all", "badregexp", "neither", "noKey", "null">>),
           F("methods",           <<"-", "GET", "bogus", "dup">>),
